@@ -29,6 +29,21 @@ if INPUTS['kind'] == 'guard':
             raised = True
         if raised != should:
             bad = 'year %d: ValueError raised=%r' % (y, raised)
+elif INPUTS['kind'] == 'eot':
+    # every day of a few years on the real library (no stubs): within 25 minutes of zero, less than 45 s change per day
+    for y in (1800, 1999, 2000, 2024, 2199):
+        prev = None
+        j0 = Epoch(y, 1, 1.0).jde()
+        for d in range(366):
+            m, s = Sun.equation_of_time(Epoch(j0 + d))
+            v = (abs(m) + s / 60.0) * (-1 if m < 0 else 1)
+            if abs(m) + s / 60.0 > 25:
+                bad = 'equation of time on JDE %r = %r min %r s' % (j0 + d, m, s); break
+            if prev is not None and abs(v - prev) * 60 > 45 and abs(m) >= 1 and abs(int(prev)) >= 1:
+                bad = 'equation of time changes by %r s in one day at JDE %r' % ((v - prev) * 60, j0 + d); break
+            prev = v
+        if bad:
+            break
 else:
     ys = sorted(set([INPUTS.get('year', 2000)] + list(range(-1000, 3000, 61)) + [-1000, 999, 1000, 2999]))
     for y in ys:
@@ -215,23 +230,80 @@ def task_seeds(_):
     return t
 
 
+def task_eot(_):
+    """Sun.equation_of_time after `l0 = l0.to_positive()`: the real Angle arithmetic, with the mean longitude L0, the right
+    ascension A, the nutation P and cos(eps) arbitrary.  The returned (m, s) must encode 4 * E_red minutes, E_red being
+    E = L0 - 0.0057183 - A + P*cos(eps) reduced to [-180, 180] -- anything else is hundreds of minutes off."""
+    from symx import slicer
+    t = harness.Task('equation_of_time')
+    mod = loader.mod('Sun')
+    Angle = loader.mod('Angle').Angle
+    E = loader.mod('Epoch')
+    try:
+        tail, _src = slicer.tail_after('Sun', 'Sun.equation_of_time', 'l0 = l0.to_positive()', 'epoch, l0')
+    except core.EngineError as ex:
+        t.ob('equation_of_time: slice after the mean longitude', 'unknown', 0, str(ex))
+        return t
+    L0, A, P, c = Num.real_var('L0'), Num.real_var('A'), Num.real_var('P'), Num.real_var('ceps')
+    pre = [L0.e >= 0, L0.e < 360, A.e >= 0, A.e < 360, P.e >= z3.RealVal('-0.01'), P.e <= z3.RealVal('0.01'), c.e >= z3.RealVal('0.89'), c.e <= z3.RealVal('0.94')]
+    orig = (mod.Sun.apparent_geocentric_position, mod.true_obliquity, mod.ecliptical2equatorial, mod.nutation_longitude, mod.cos)
+
+    class Eps(object):
+        def rad(self):
+            return 'eps'
+
+    def run():
+        mod.Sun.apparent_geocentric_position = staticmethod(lambda *a, **k: (Angle(0.0), Angle(0.0), 1.0))
+        mod.true_obliquity = lambda *a, **k: Eps()
+        mod.ecliptical2equatorial = lambda *a, **k: (Angle(A), Angle(0.0))
+        mod.nutation_longitude = lambda *a, **k: Angle(P)
+        mod.cos = lambda x: c
+        try:
+            return tail(E.JDE2000, Angle(L0))
+        finally:
+            (mod.Sun.apparent_geocentric_position, mod.true_obliquity, mod.ecliptical2equatorial, mod.nutation_longitude, mod.cos) = orig
+    ctx, paths = core.explore(run, pre, check_div0=False, timeout_ms=20000, max_paths=400, max_seconds=300)
+    t.absorb_ctx(ctx, paths)
+    bd = 'mean longitude and right ascension arbitrary in [0, 360), |nutation| <= 0.01 deg, cos(eps) in [0.89, 0.94]; real arithmetic'
+    Ev = L0.e - z3.RealVal('0.0057183') - A.e + P.e * c.e
+    Ered = z3.If(Ev > 180, Ev - 360, z3.If(Ev < -180, Ev + 360, Ev))
+    inp = lambda mo: {'kind': 'eot', 'L0': str(harness.meval(mo, L0)), 'A': str(harness.meval(mo, A))}
+    for i, p in enumerate(paths):
+        tag = '@p%d' % i
+        t.reach += 1
+        if p.kind != 'ok':
+            t.ob('equation_of_time total' + tag, 'sat' if p.kind == 'exc' else 'unwind', 0, bd)
+            if p.kind == 'exc':
+                t.cand('C14.eot', {'kind': 'eot'}, 'exception %r' % (p.exc,))
+            continue
+        m, sec = p.val
+        m, sec = core.lift(m).re(), core.lift(sec).re()
+        V = z3.If(m >= 0, m, -m) + sec / 60
+        W = 4 * z3.If(Ered >= 0, Ered, -Ered)
+        tol = z3.RealVal('1/1000000')
+        t.decide(ctx, p, 'equation of time (m, s) = 4 * (L0 - 0.0057183 - alpha + dpsi cos eps reduced to [-180, 180]) minutes: magnitude, sign, 0 <= s < 60' + tag,
+                 z3.Or(V - W > tol, W - V > tol, sec < 0, sec >= 60, z3.And(m > 0, Ered < 0), z3.And(m < 0, Ered > 0)), 'C14.eot', inp, 'equation of time', bd,
+                 timeout_ms=60000, retry=False)
+    return t
+
+
 def dispatch(job):
     k, a = job
-    return {'loop': task_loop, 'seeds': task_seeds}[k](a)
+    return {'loop': task_loop, 'seeds': task_seeds, 'eot': task_eot}[k](a)
 
 
 def main(tier):
     loader.install()
     chk = harness.Check(PID, tier)
-    chk.replays = {'C14.guard': REPLAY, 'C14.loop': REPLAY}
-    chk.functions = ['Sun.get_equinox_solstice']
-    chk.run(dispatch, [('loop', tg) for tg in TARGETS] + [('seeds', 0)], 'seasons: guard, loop exit, start instants')
+    chk.replays = {'C14.guard': REPLAY, 'C14.loop': REPLAY, 'C14.eot': REPLAY}
+    chk.functions = ['Sun.get_equinox_solstice', 'Sun.equation_of_time (statements after the mean longitude)']
+    chk.run(dispatch, [('loop', tg) for tg in TARGETS] + [('seeds', 0), ('eot', 0)], 'seasons: guard, loop exit, start instants')
     chk.bounds = {'year': 'every integer', 'loop': 'exits after 1..%d evaluations of the position theory (longer runs: the same body; counted as unwinding misses)' % UNWIND}
     chk.stubs = ['Sun.apparent_geocentric_position -> uninterpreted theory: a fresh symbolic longitude per call, the epoch asked for is recorded',
-                 'Angle inside Sun -> plain value stand-in; sin -> box in [-1, 1] keyed by its argument; Epoch(number) -> stores the JDE (C02)']
+                 'equation_of_time: apparent position, obliquity, ecliptical2equatorial, nutation -> arbitrary values (real Angle class kept)', 'Angle inside Sun (seasons only) -> plain value stand-in; sin -> box in [-1, 1] keyed by its argument; Epoch(number) -> stores the JDE (C02)']
     chk.outside = ['that the loop terminates, and which of the two roots 180 degrees apart it reaches (values of VSOP87 + nutation)',
                    'the spacing clauses for the RETURNED instants (decided here for the start instants of Meeus tables 27.A/B only; the total correction is a series value)',
-                   'equation of time, sunrise/sunset, rise/transit/set (every clause is a bound on series values or on sidereal time / altitude compositions)']
+                   'equation of time: its size (25 / 17.5 minutes) and daily change (series values) -- only the reduction to [-180, 180] and the (m, s) encoding are decided', 'sunrise/sunset, rise/transit/set (bounds on series values, sidereal time and altitude compositions)']
     chk.assumptions = ['real arithmetic', 'the Sun\'s apparent longitude changes by at most 1.02 degrees per day (used only to convert a drift between the evaluated and the returned instant into degrees)',
                        '|sin x| <= sin(e) for small e  =>  x within e of a multiple of 180 degrees (mathematical fact applied outside the solver)']
     return chk.finish()
